@@ -3,6 +3,7 @@
   where the origin of the variables is put: translating `x`, `lb`, `ub` by the same constant leaves `projgr` unchanged.
 -/
 import LbfgsbVerif.Proofs.UnitsSub
+import LbfgsbVerif.Proofs.UnitsKernel
 
 set_option linter.unusedSectionVars false
 
@@ -72,6 +73,48 @@ theorem projgr_shift (c : K) (x g lb ub : Vec K) :
 
 example : projgr ([0, 3].map (· + 7)) [2, -5] ([-1, -1].map (· + 7)) ([1, 4].map (· + 7)) = (1 : ℚ) := by
   rw [projgr_shift 7]
+  decide +kernel
+
+theorem fabs_smul (b a : K) (hb : 0 < b) : fabs (b * a) = b * fabs a := by
+  unfold fabs
+  have h : b * a < 0 ↔ a < 0 := by
+    constructor
+    · intro h; by_contra hn; exact absurd h (not_lt.2 (mul_nonneg (le_of_lt hb) (not_lt.1 hn)))
+    · intro h; exact mul_neg_of_pos_of_neg hb h
+  by_cases ha : a < 0
+  · rw [if_pos ha, if_pos (h.2 ha)]; ring
+  · rw [if_neg ha, if_neg (fun h' => ha (h.1 h'))]
+
+theorem fmax_smul (b a c : K) (hb : 0 < b) : fmax (b * a) (b * c) = b * fmax a c := by
+  unfold fmax
+  have h : b * a < b * c ↔ a < c := mul_lt_mul_iff_right₀ hb
+  by_cases hac : a < c
+  · rw [if_pos hac, if_pos (h.2 hac)]
+  · rw [if_neg hac, if_neg (fun h' => hac (h.1 h'))]
+
+theorem maxAbs_fold_smul (b : K) (hb : 0 < b) (v : Vec K) (acc : K) :
+    (smul b v).foldl (fun acc a => fmax acc (fabs a)) (b * acc) = b * v.foldl (fun acc a => fmax acc (fabs a)) acc := by
+  induction v generalizing acc with
+  | nil => simp [smul]
+  | cons a as ih =>
+    have := ih (fmax acc (fabs a))
+    simp only [smul, List.map_cons, List.foldl_cons] at this ⊢
+    rw [fabs_smul b a hb, fmax_smul b _ _ hb, this]
+
+theorem maxAbs_smul (b : K) (hb : 0 < b) (v : Vec K) : maxAbs (smul b v) = b * maxAbs v := by
+  unfold maxAbs
+  have := maxAbs_fold_smul b hb v 0
+  rwa [mul_zero] at this
+
+/-- **C04 (units)** — with the variables, the box and the gradient all measured in a unit `b` times smaller, the projected-gradient norm is
+`b` times larger: the measure is homogeneous, so the `pgtol` test scales with the problem and with nothing else -/
+theorem projgr_smul (b : K) (hb : 0 < b) (x g lb ub : Vec K) :
+    projgr (smul b x) (smul b g) (smul b lb) (smul b ub) = b * projgr x g lb ub := by
+  unfold projgr
+  rw [Lbfgsb.Units.vsub_smul, Lbfgsb.Units.clip_smul b hb, Lbfgsb.Units.vsub_smul, maxAbs_smul b hb]
+
+example : projgr (smul 3 [0, 3]) (smul 3 [2, -5]) (smul 3 [-1, -1]) (smul 3 [1, 4]) = (3 : ℚ) := by
+  rw [projgr_smul 3 (by norm_num)]
   decide +kernel
 
 end Lbfgsb.C04
